@@ -11,6 +11,7 @@ import (
 	"sort"
 	"strings"
 	"sync"
+	"sync/atomic"
 	"testing"
 	"testing/synctest"
 	"time"
@@ -83,6 +84,8 @@ type Sim struct {
 	OnQuiescent []func()
 	// Observers of bus events (called under the world lock).
 	BusObservers []func(ev nats.BusEvent)
+
+	stepMirror atomic.Int64
 
 	// SampleText describes the generated workload (for evidence and replay files).
 	SampleText string
@@ -176,6 +179,15 @@ func (s *Sim) Close() {
 func (s *Sim) Logf(format string, a ...any) {
 	s.EvLog = append(s.EvLog, fmt.Sprintf("%04d t=%s ", s.Step, time.Since(s.start))+fmt.Sprintf(format, a...))
 }
+
+// bump advances the step counter; StepSeq is the copy other goroutines may read.
+func (s *Sim) bump() {
+	s.Step++
+	s.stepMirror.Store(int64(s.Step))
+}
+
+// StepSeq returns the current step number (safe from any goroutine).
+func (s *Sim) StepSeq() int { return int(s.stepMirror.Load()) }
 
 func (s *Sim) Probe(name string) { s.Stats.Probes[name]++ }
 func (s *Sim) Fault(name string) { s.Stats.Faults[name]++ }
@@ -355,7 +367,7 @@ func (s *Sim) StepOnce(random bool) bool {
 				mx = 3000
 			}
 			d := time.Duration(1+s.SCH.Draw(3000)%mx) * time.Millisecond
-			s.Step++
+			s.bump()
 			s.Fault("delay")
 			s.Logf("delay %s", d)
 			s.noteSched("delay")
@@ -371,7 +383,7 @@ func (s *Sim) StepOnce(random bool) bool {
 		}
 	}
 	e := evs[idx]
-	s.Step++
+	s.bump()
 	s.Logf("%s [%d/%d]", e.Key, idx, len(evs))
 	s.noteSched(e.Key)
 	e.Do()
@@ -452,7 +464,7 @@ func (s *Sim) Call(fn func()) {
 			}
 			continue
 		}
-		s.Step++
+		s.bump()
 		s.Logf("%s [call]", evs[0].Key)
 		evs[0].Do()
 	}
